@@ -541,6 +541,15 @@ func (r refuser) CheckPlayer(name string, _ uuid.UUID, _ int32) (bool, chat.Mess
 type pingHandler struct {
 	*server.PingInfo
 	*server.PlayerList
+	st *statusState
+}
+
+// Description is different on every call: the status answer has to be
+// produced from the handler at the time of the ping, not from an earlier one.
+func (h pingHandler) Description() *chat.Message {
+	m := *h.PingInfo.Description()
+	m.Text = h.st.nextDesc(m.Text)
+	return &m
 }
 
 type dialer struct {
@@ -654,18 +663,35 @@ func (b *botSim) setHandlerErr(err error) {
 	}
 }
 
+type statusResult struct {
+	json  []byte
+	err   error
+	link  *simnet.Link
+	descs []string // what the handler's Description returned while this ping was answered (nil = never asked)
+}
+
 type statusState struct {
-	json []byte
-	err  error
-	done bool
-	link *simnet.Link
+	results []statusResult
+	link    *simnet.Link
+	calls   int
+	cur     []string
 }
 
 //go:norace
-func (s *statusState) setLink(l *simnet.Link) { s.link = l }
+func (s *statusState) setLink(l *simnet.Link) { s.link, s.cur = l, nil }
 
 //go:norace
-func (s *statusState) set(j []byte, err error) { s.json, s.err, s.done = j, err, true }
+func (s *statusState) set(j []byte, err error) {
+	s.results = append(s.results, statusResult{json: j, err: err, link: s.link, descs: s.cur})
+}
+
+//go:norace
+func (s *statusState) nextDesc(base string) string {
+	s.calls++
+	d := fmt.Sprintf("%s #%d", base, s.calls)
+	s.cur = append(s.cur, d)
+	return d
+}
 
 func (d *dialer) DialMCContext(ctx context.Context, addr string) (*mcnet.Conn, error) {
 	link := simnet.Pipe(d.w, fmt.Sprintf("bot%d", d.b.idx), d.cfgAB, d.cfgBA)
@@ -731,8 +757,9 @@ func scenarioWorld(c *harness.Ctx) {
 			pRefused.Hit()
 		}
 	}
-	statusMode := tp.Choose(4)  // 0 none, 1 at start, 2 concurrently, 3 after all joined
-	listenMode := tp.Bool(1, 2) // connections arrive through the real Server.Listen accept loop
+	statusMode := tp.Choose(4)     // 0 none, 1 at start, 2 concurrently, 3 after all joined
+	nPings := 1 + tp.Pick(3, 2, 1) // several pings against the same server, one after the other
+	listenMode := tp.Bool(1, 2)    // connections arrive through the real Server.Listen accept loop
 	withDeadline := tp.Bool(1, 2)
 	var icon image.Image
 	if tp.Bool(1, 3) {
@@ -836,7 +863,7 @@ func scenarioWorld(c *harness.Ctx) {
 			}})
 		}
 		srv := &server.Server{
-			ListPingHandler: pingHandler{pingInfo, pl},
+			ListPingHandler: pingHandler{pingInfo, pl, status},
 			LoginHandler: &server.MojangLoginHandler{OnlineMode: false, Threshold: threshold,
 				LoginChecker: refuser{refuseNames}},
 			ConfigHandler: configStub{bots: func(conn *mcnet.Conn) int {
@@ -881,7 +908,12 @@ func scenarioWorld(c *harness.Ctx) {
 				if statusMode == 3 {
 					joinedWG.Wait()
 				}
-				doStatus()
+				for k := 0; k < nPings; k++ {
+					doStatus()
+					for y := tp.Choose(4); y > 0; y-- {
+						w.Yield("harness.pinger")
+					}
+				}
 			})
 		}
 		for i, b := range bots {
@@ -1157,19 +1189,27 @@ func scenarioWorld(c *harness.Ctx) {
 		// not part of the statement; that it returns at all is the liveness oracle)
 	}
 	if statusMode != 0 {
-		if !status.done {
-			c.Fail("gate.status", "ping", "hang", "the status ping did not return")
+		if len(status.results) != nPings {
+			c.Fail("gate.status", "ping", "hang", "%d of %d status pings returned", len(status.results), nPings)
 			return
 		}
-		if status.err != nil {
-			c.Fail("gate.status", "ping", "error", "PingAndList failed: %v", status.err)
-			return
+		if nPings > 1 {
+			pStatusRepeated.Hit()
 		}
-		checkStatus(c, status.json, pingInfo, pl, bots, maxPlayers, statusOnline, status.link)
+		for k, r := range status.results {
+			if r.err != nil {
+				c.Fail("gate.status", "ping", "error", "PingAndList %d failed: %v", k, r.err)
+				return
+			}
+			checkStatus(c, r.json, pingInfo, pl, bots, maxPlayers, statusOnline, r.link, r.descs, k)
+			if c.Failed() {
+				return
+			}
+		}
 	}
 }
 
-func checkStatus(c *harness.Ctx, raw []byte, pi *server.PingInfo, pl *server.PlayerList, bots []*botSim, maxPlayers int, online [2]int, link *simnet.Link) {
+func checkStatus(c *harness.Ctx, raw []byte, pi *server.PingInfo, pl *server.PlayerList, bots []*botSim, maxPlayers int, online [2]int, link *simnet.Link, descs []string, k int) {
 	var got struct {
 		Version struct {
 			Name     string `json:"name"`
@@ -1215,11 +1255,26 @@ func checkStatus(c *harness.Ctx, raw []byte, pi *server.PingInfo, pl *server.Pla
 			return
 		}
 	}
-	wantDesc, _ := json.Marshal(pi.Description())
+	// the description must be one the handler returned while this ping was being
+	// answered (it may be asked more than once; every answer is different)
+	if len(descs) == 0 {
+		c.Fail("gate.status", "json", "handler-not-asked", "status ping %d was answered without asking the status handler for its description", k)
+		return
+	}
+	descOK := false
 	var wd any
-	json.Unmarshal(wantDesc, &wd)
-	if !reflect.DeepEqual(wd, got.Description) {
-		c.Fail("gate.status", "json", "description", "status description %v, handler says %v", got.Description, wd)
+	for _, d := range descs {
+		wantMsg := *pi.Description()
+		wantMsg.Text = d
+		wantDesc, _ := json.Marshal(&wantMsg)
+		wd = nil
+		json.Unmarshal(wantDesc, &wd)
+		if reflect.DeepEqual(wd, got.Description) {
+			descOK = true
+		}
+	}
+	if !descOK {
+		c.Fail("gate.status", "json", "description", "status ping %d: description %v, the handler said %v while this ping was answered", k, got.Description, descs)
 		return
 	}
 	if got.FavIcon != pi.FavIcon() {
@@ -1292,3 +1347,5 @@ var pHugePlay = simrt.NewProbe("play.packet.near.protocol.maximum.incompressible
 var pResumed = simrt.NewProbe("bot.resumed.HandleGame.after.a.handler.error")
 
 var pLongUTF8Name = simrt.NewProbe("name.of.up.to.16.multi-byte.characters(>16.bytes)")
+
+var pStatusRepeated = simrt.NewProbe("status.several.pings.against.one.server")
